@@ -1,6 +1,10 @@
 package git
 
-import verif_time "time"
+import (
+	verif_time "time"
+
+	"github.com/git-lfs/git-lfs/v3/subprocess"
+)
 
 // scripted answers of the Git commands prune asks about refs and worktrees
 type VerifBranch struct {
@@ -36,3 +40,19 @@ func verifGetCommitSummaryStub(commit string) (*CommitSummary, error) {
 }
 
 func verifGetAllWorktreesStub(storageDir string) ([]*Worktree, error) { return VerifWorktrees, nil }
+
+// scripted `git worktree list --porcelain -z` (and any other plain git call of the unit)
+var VerifGitCalls [][]string
+
+// VerifScriptGit switches plain git calls to the scripted command.
+var VerifScriptGit bool
+
+func verifGitNoLFSStub(args ...string) (*subprocess.Cmd, error) {
+	if !VerifScriptGit {
+		return subprocess.ExecCommand("git", gitConfigNoLFS(args...)...)
+	}
+	VerifGitCalls = append(VerifGitCalls, append([]string(nil), args...))
+	return &subprocess.Cmd{}, nil
+}
+
+func verifGitVersionStub(ver string) bool { return true }
